@@ -1,6 +1,7 @@
 /-
-  Executable form of the side condition under which the write-through revisions of the account
-  cache keep cache and store in agreement (`Lemmas.IAMCacheW.QuietAt`): when call i renames the
+  REGRESSION MODEL only (the write-through cache of the code before 6f25651; the current code needs
+  no side condition).  Executable form of the side condition under which the write-through
+  revisions of the account cache keep cache and store in agreement (`Lemmas.IAMCacheW.QuietAt`): when call i renames the
   new image into place, no other call on the same key sits between its store access and its cache
   step, and a created account equals the entry CreateAccount will cache.  Core-only: the driver
   labels the schedules of the real runs with it.
